@@ -33,7 +33,7 @@ def run(prop, tier):
         sjobs = [dict(src="harness/sched_ipc.c", ipc=True, args=["shmlock", "-p", p, "--", 2]), dict(src="harness/sched_ipc.c", ipc=True, args=["shmlock", "-p", 2, "--", 3]),
                  dict(src="harness/sched_ipc.c", ipc=True, args=["shmcreate", "-p", p, "--", 2]), dict(src="harness/sched_ipc.c", ipc=True, args=["shmrace", "-p", p + 1])]
     sacc = mcsched.run_jobs(prop, tier, sjobs)
-    acc.viols += sacc.viols; acc.jobs += sacc.jobs; acc.samples += sacc.samples[:3]; acc.incomplete += sacc.incomplete; acc.notes += sacc.notes
+    acc.viols += sacc.viols; acc.jobs += sacc.jobs; acc.samples += sacc.samples[:3]; acc.incomplete += sacc.incomplete; acc.notes += sacc.notes; acc.engine_errors += sacc.engine_errors
     for k, v in sacc.stats.items():
         acc.add_stat("sched_" + k, v)
     s = acc.stats
